@@ -6,17 +6,17 @@
 //
 // stdin:   init <x> <x> ...                 initial contents (pushed sequentially before the threads start)
 //          thread <op> <op> ...             one line per thread; op: p<x> push(const&)  m<x> push(&&)  t<x> push of an
-//                                           element whose copy throws  o try_pop
+//                                           element whose copy throws  o try_pop  x try_pop into an element whose assignment throws
 //          sched random <seed> [stay]  |  sched randoms <seed0> <count> [stay]  |  sched replay <tid> <tid> ...  |  sched dfs <preemption bound> <max runs>
 //          mode full | brief                (brief: no event lines)
 // stdout per run:
 //          run <k>
 //          ev <tid> <kind> <var> <order> <a> <b> <ok>      (var: pending busy my_size elem st<t> nx<t>; values op<t>)
 //          note <tid> begin|end ...                        (interleaved with ev lines, in log order)
-//          op <tid> <seq> <op> <result> <begin-index> <end-index>    result: S | F (push: exception reached the caller) | S:<v> | W (never returned)
+//          op <tid> <seq> <op> <result> <begin-index> <end-index> <node>   node: which of this thread's op_data addresses; result: S | F (push: exception reached the caller) | S:<v> | W (never returned)
 //          sched <tid> ...
 //          deadlock <0|1> [parked tids]
-//          final <sorted remaining contents>
+//          final <sorted remaining contents>        |  locked 1   (handler_busy still set after all threads finished)
 //          end
 #include <oneapi/tbb/concurrent_priority_queue.h>
 #include <cstdio>
@@ -32,19 +32,20 @@
 static std::atomic<int> g_elem_touch{0};   // a verif_atomic under the prelude: a scheduling point inside element copies/moves
 
 struct CopyBomb {};
+struct AssignBomb {};
 struct Elem {
-    long v; bool bomb;
+    long v; bool bomb; bool abomb = false;      // abomb: assigning INTO this object throws (op `x`)
     Elem(long v_ = -7, bool b = false) : v(v_), bomb(b) {}
     Elem(const Elem& o) : v(-8), bomb(false) { (void)g_elem_touch.load(std::memory_order_relaxed); if (o.bomb) throw CopyBomb(); v = o.v; bomb = o.bomb; }
     Elem(Elem&& o) noexcept : v(-8), bomb(false) { (void)g_elem_touch.load(std::memory_order_relaxed); v = o.v; bomb = o.bomb; }
-    Elem& operator=(const Elem& o) { (void)g_elem_touch.load(std::memory_order_relaxed); if (o.bomb) throw CopyBomb(); v = o.v; bomb = o.bomb; return *this; }
-    Elem& operator=(Elem&& o) noexcept { (void)g_elem_touch.load(std::memory_order_relaxed); v = o.v; bomb = o.bomb; return *this; }
+    Elem& operator=(const Elem& o) { (void)g_elem_touch.load(std::memory_order_relaxed); if (abomb) throw AssignBomb(); if (o.bomb) throw CopyBomb(); v = o.v; bomb = o.bomb; return *this; }
+    Elem& operator=(Elem&& o) { (void)g_elem_touch.load(std::memory_order_relaxed); if (abomb) throw AssignBomb(); v = o.v; bomb = o.bomb; return *this; }
     friend bool operator<(const Elem& a, const Elem& b) { return a.v < b.v; }
 };
 using Q = tbb::concurrent_priority_queue<Elem>;
 
 struct OpSpec { char kind; long x; };
-struct OpRes { std::string res = "W"; long begin = -1, end = -1; };
+struct OpRes { std::string res = "W"; long begin = -1, end = -1; int cls = 0; };
 
 static std::vector<long> g_init;
 static std::vector<std::vector<OpSpec>> g_threads;
@@ -64,8 +65,17 @@ static bool one_run(verif::Schedule& sch, int runno) {
                 std::string r;
                 if (o.kind == 'o') {
                     Elem out(-7, false);
-                    bool ok = q->try_pop(out);
-                    r = ok ? "S:" + std::to_string(out.v) : "F";
+                    try {
+                        bool ok = q->try_pop(out);
+                        r = ok ? "S:" + std::to_string(out.v) : "F";
+                    } catch (...) { r = "X"; }     // a foreign exception reached this caller
+                } else if (o.kind == 'x') {        // try_pop into an element whose assignment throws
+                    Elem out(-7, false); out.abomb = true;
+                    try {
+                        bool ok = q->try_pop(out);
+                        r = ok ? "S:" + std::to_string(out.v) : "F";
+                    } catch (const AssignBomb&) { r = "E"; }   // the exception reached the caller of this operation
+                    catch (...) { r = "X"; }
                 } else {
                     Elem e(o.x, o.kind == 't');
                     try {
@@ -85,35 +95,44 @@ static bool one_run(verif::Schedule& sch, int runno) {
     verif::name_addr(&q->my_size, "my_size");
     verif::name_addr(&g_elem_touch, "elem");
     verif::name_value(0, "0");
-    verif::Result res = verif::run(bodies, sch, 400000);
+    verif::Result res = verif::run(bodies, sch, 30000);
     printf("run %d\n", runno);
     // name operation nodes: the first atomic access of an operation is its owner's load of op->status
     std::vector<int> expect(g_threads.size(), 0);
+    std::vector<long> curseq(g_threads.size(), -1);
+    std::vector<std::vector<const void*>> nodes(g_threads.size());   // distinct op_data addresses per thread, in order of first use
     for (size_t i = 0; i < res.log.size(); ++i) {
         const verif::Event& e = res.log[i];
         if (e.kind == verif::K_NOTE) {
             std::string tag = e.tag ? e.tag : "";
-            if (tag == "begin") { expect[e.tid] = 1; if ((size_t)e.a < results[e.tid].size()) results[e.tid][e.a].begin = (long)i; }
+            if (tag == "begin") { expect[e.tid] = 1; curseq[e.tid] = (long)e.a; if ((size_t)e.a < results[e.tid].size()) results[e.tid][e.a].begin = (long)i; }
             if (tag == "end") { if ((size_t)e.a < results[e.tid].size()) results[e.tid][e.a].end = (long)i; }
             if (g_full) printf("note %d %s %llu\n", e.tid, tag.c_str(), (unsigned long long)e.a);
             continue;
         }
-        if (expect[e.tid] && e.kind == verif::K_LOAD && e.addr && verif::addr_name(e.addr).rfind("anon", 0) == 0) {
-            const char* a = (const char*)e.addr;
-            verif::name_addr(a, "st" + std::to_string(e.tid));
-            verif::name_addr(a + sizeof(std::atomic<uintptr_t>), "nx" + std::to_string(e.tid));
-            verif::name_value((uint64_t)(uintptr_t)a, "op" + std::to_string(e.tid));
-            expect[e.tid] = 0;
-        } else if (expect[e.tid] && e.kind == verif::K_LOAD && e.addr && verif::addr_name(e.addr) == "st" + std::to_string(e.tid)) {
-            expect[e.tid] = 0;
+        if (expect[e.tid] && e.kind == verif::K_LOAD && e.addr) {
+            // first access of an operation: its owner's `op->status.load`.  The node (cpq_operation on the caller's
+            // stack) is named op<tid>.<k>, k = index of its address among the addresses this thread has used
+            std::string nm = verif::addr_name(e.addr);
+            if (nm.rfind("anon", 0) == 0 || nm == "st" + std::to_string(e.tid)) {
+                const char* a = (const char*)e.addr;
+                auto& nd = nodes[e.tid];
+                size_t k = 0; while (k < nd.size() && nd[k] != (const void*)a) ++k;
+                if (k == nd.size()) nd.push_back(a);
+                verif::name_addr(a, "st" + std::to_string(e.tid));
+                verif::name_addr(a + sizeof(std::atomic<uintptr_t>), "nx" + std::to_string(e.tid));
+                verif::name_value((uint64_t)(uintptr_t)a, "op" + std::to_string(e.tid) + "." + std::to_string(k));
+                if (curseq[e.tid] >= 0 && (size_t)curseq[e.tid] < results[e.tid].size()) results[e.tid][curseq[e.tid]].cls = (int)k;
+                expect[e.tid] = 0;
+            }
         }
         if (g_full) printf("ev %s\n", verif::format_event(e).c_str());
     }
     for (size_t t = 0; t < g_threads.size(); ++t)
         for (size_t k = 0; k < g_threads[t].size(); ++k) {
             OpSpec o = g_threads[t][k];
-            std::string os(1, o.kind); if (o.kind != 'o') os += std::to_string(o.x);
-            printf("op %zu %zu %s %s %ld %ld\n", t, k, os.c_str(), results[t][k].res.c_str(), results[t][k].begin, results[t][k].end);
+            std::string os(1, o.kind); if (o.kind != 'o' && o.kind != 'x') os += std::to_string(o.x);
+            printf("op %zu %zu %s %s %ld %ld %d\n", t, k, os.c_str(), results[t][k].res.c_str(), results[t][k].begin, results[t][k].end, results[t][k].cls);
         }
     printf("sched");
     for (int t : res.schedule) printf(" %d", t);
@@ -121,6 +140,8 @@ static bool one_run(verif::Schedule& sch, int runno) {
     for (int t : res.parked) printf(" %d", t);
     printf("\n");
     if (res.deadlock) { printf("end\n"); fflush(stdout); return false; }
+    // a queue whose handler_busy flag is still set can never be used again (any call would spin forever)
+    if (q->my_aggregator.handler_busy.load() != 0) { printf("locked 1\nend\n"); fflush(stdout); q.release(); return true; }
     // remaining contents: drain sequentially (uncontrolled)
     std::vector<long> rest;
     { Elem out; while (q->try_pop(out)) rest.push_back(out.v); }
@@ -143,7 +164,7 @@ int main() {
             std::string o;
             while (is >> o) {
                 OpSpec s{o[0], 0};
-                if (o[0] != 'o') s.x = atol(o.c_str() + 1);
+                if (o[0] != 'o' && o[0] != 'x') s.x = atol(o.c_str() + 1);
                 g_threads.back().push_back(s);
             }
         } else if (w == "sched") { is >> schedkind; long x; while (is >> x) sargs.push_back(x); }
